@@ -460,7 +460,8 @@ def inplace(case, ctx):
 @st.composite
 def giant_case(draw, tier="quick"):
     # four cases in five above 2^26 elements (1 GiB of complex128 for the matrix alone)
-    K = int(2 ** (draw(st.floats(26.0, 27.6)) if draw(st.integers(0, 4)) else draw(st.floats(24.0, 26.0))))
+    # (a kernel above a size threshold is above every lower threshold too: most cases sit at the top of the range)
+    K = int(2 ** (draw(st.floats(27.0, 27.6)) if draw(st.integers(0, 4)) else draw(st.floats(24.0, 27.0))))
     top = int(np.sqrt(K))
     m = int(np.exp(draw(st.floats(np.log(60.0), np.log(float(min(top, 12000)))))))
     M = max(m, K // m + draw(st.integers(0, 2)))
@@ -474,6 +475,52 @@ hyp("C01", "giant", lambda tier: giant_case(tier),
     "inputs of 60..12000 samples on one axis transformed over one full period with kernels of 2^24 .. 2^27.6 "
     "elements (log-uniform; up to ~3 GB for the transform matrix, i.e. up to what the memory cap allows) vs an "
     "FFT-based evaluation of the same sum, long axis first and long axis second", examples=(3, 5), budget_s=(400, 900), max_shards=2)(lambda case, ctx: [long(dict(case, axis=a), ctx) for a in (0, 1)] and None)
+
+
+# --- both kernels large at once ----------------------------------------------------------------------------------------
+
+@hyp("C01", "both_kernels", lambda tier: st.fixed_dictionaries(
+        {"K": st.one_of(st.floats(24.05, 24.5), st.floats(24.05, 24.5), st.floats(24.05, 24.5), st.floats(22.2, 24.0)),
+         "long": st.integers(9000, 16000), "swap": st.booleans(), "seed": st.integers(0, 2**31 - 1),
+         "q": st.tuples(st.floats(0.2, 0.9), st.floats(0.2, 0.9)), "unitary": st.booleans(),
+         "shift": st.tuples(st.floats(-2, 2), st.floats(-2, 2)), "offset": st.tuples(st.integers(-9, 9), st.integers(-9, 9))}),
+     "an input that is long on one axis transformed onto an output that is long on the OTHER axis: the row kernel "
+     "(output rows x input rows) and the column kernel (input columns x output columns) both hold 2^22 .. 2^24.5 "
+     "elements; 400 output samples spread over the whole output vs the defining sum", examples=(2, 3), budget_s=(400, 900),
+     max_shards=2)
+def both_kernels(case, ctx):
+    K = int(2 ** case["K"])
+    L = case["long"]
+    S = max(2, K // L + 1)
+    m, n = (L, S) if not case["swap"] else (S, L)
+    M, N = n, m
+    rng = np.random.default_rng(case["seed"])
+    f = rng.normal(size=(m, n)) + 1j * rng.normal(size=(m, n))
+    a = (case["q"][0] / max(m, M), case["q"][1] / max(n, N))
+    sh, off = case["shift"], case["offset"]
+    ctx.tag(f"row_kernel:2^{int(np.log2(M * m))}", f"col_kernel:2^{int(np.log2(n * N))}", "unitary" if case["unitary"] else "plain")
+    ctx.nontrivial_if(True)
+    with lentil_call("C01.both_kernels", f"dft2(input {m}x{n} -> output {M}x{N})"):
+        F = fourier.dft2(f, a, shape=(M, N), shift=sh, offset=off, unitary=case["unitary"])
+    if F.shape != (M, N):
+        raise Violation("C01.both_kernels.shape", f"output shape {F.shape}, requested {(M, N)}")
+    rows = np.unique(np.concatenate([[0, M - 1, M // 2], rng.integers(0, M, size=17)]))
+    cols = np.unique(np.concatenate([[0, N - 1, N // 2], rng.integers(0, N, size=17)]))
+    x = np.arange(m) - m // 2 + off[0]
+    y = np.arange(n) - n // 2 + off[1]
+    E1 = np.exp(-2j * np.pi * a[0] * np.outer(rows - M // 2 - sh[0], x))
+    E2 = np.exp(-2j * np.pi * a[1] * np.outer(y, cols - N // 2 - sh[1]))
+    ref = E1 @ f @ E2
+    if case["unitary"]:
+        ref = ref * np.sqrt(a[0] * a[1])
+    sub = F[np.ix_(rows, cols)]
+    tol = 1e-9 * float(np.sum(np.abs(f))) * (np.sqrt(a[0] * a[1]) if case["unitary"] else 1.0)
+    err = np.abs(sub - ref)
+    if float(err.max()) > tol:
+        i, j = np.unravel_index(int(np.argmax(err)), err.shape)
+        raise Violation("C01.both_kernels.value", f"dft2(input {m}x{n}, output {M}x{N}): output sample ({int(rows[i])}, {int(cols[j])}) is "
+                                                  f"{complex(sub[i, j]):.6g}, the defining sum is {complex(ref[i, j]):.6g} "
+                                                  f"({int((err > tol).sum())} of {err.size} checked samples differ)")
 
 
 # --- input planes of more than a million samples (both axes long), small output windows ------------------------
